@@ -53,7 +53,7 @@ fn census() -> serde_json::Value {
 
 pub fn run(env: &Env) {
     let seed = env.ctx.seed;
-    env.ctx.set_rule("byte-for-byte against the independent reference: KeyGen over |ikm| in {0,31,32,33,64,255,256} x key_info in {None,0,1,255,256,65535,65536 B} x key_dst in {None,1,255,256 B} (incl. the three refusal rules) + SkToPk; Generators::create for EVERY count 0..=200 (thorough 0..=1100) x 7 api_ids; hash_to_scalar for EVERY message length 0..=300 x dst length {1,16,254,255,256}; messages_to_scalars over the message letters x api_ids; sign over a shape grid; blind_sign over (L,M) in [0..=2]^2; update_signature against the reference formula; accept/reject decisions on honest and mutated artefacts; history independence: ALL call sequences of length <= 2 over the 41-call COLLISION alphabet (calls that differ in exactly one of header / message count / message / key / suite / api_id / committed count / L / ph / disclosure) and ALL length-3 sequences within a family (quick; thorough: all 41^3) - each step's result must equal the result of that call from the initial state (fresh process); length <= 2 histories additionally each in its own fresh process; 16-thread concurrent battery (SAMPLED schedules). State = one (operation, input shape) or one history prefix; non-trivial = implementation output compared with an independently computed value.");
+    env.ctx.set_rule("byte-for-byte against the independent reference: KeyGen over |ikm| in {0,31,32,33,64,255,256} x key_info in {None,0,1,255,256,65535,65536 B} x key_dst in {None,1,255,256 B} (incl. the three refusal rules) + SkToPk; Generators::create for EVERY count 0..=200 (thorough 0..=1100) x 7 api_ids; hash_to_scalar for EVERY message length 0..=300 x dst length {1,16,254,255,256}; messages_to_scalars over the message letters x api_ids; sign over a shape grid; blind_sign over (L,M) in [0..=2]^2; update_signature against the reference formula; accept/reject decisions on honest and mutated artefacts; history independence: ALL call sequences of length <= 2 over the 45-call COLLISION alphabet (calls that differ in exactly one of header / message count / message / key / suite / api_id / committed count / L / ph / disclosure) and ALL length-3 sequences within a family (quick; thorough: all 45^3) - each step's result must equal the result of that call from the initial state (fresh process); length <= 2 histories additionally each in its own fresh process; 16-thread concurrent battery (SAMPLED schedules). State = one (operation, input shape) or one history prefix; non-trivial = implementation output compared with an independently computed value.");
     env.ctx.assume("empty domain-separation tags are outside RFC 9380's domain (tags MUST have non-zero length) and are not judged");
     env.ctx.extra("sync_census", census());
     env.ctx.extra("schedule_claim", json!("zkryptium contains no synchronisation operation (see sync_census), so interleavings differ only in thread identity; all call orders up to length 3 are enumerated; the 16-thread run samples schedules"));
